@@ -104,7 +104,7 @@ func factsCrash(c *factsCtx, outdir string) error {
 	b.WriteString("namespace Gluon.Facts\n\n")
 	fmt.Fprintf(&b, "/-- methods of `db.ReadOnly` (with the embedded interfaces) -/\ndef crashRoMethods : List String := %s\n\n", leanStrList(ro))
 	fmt.Fprintf(&b, "/-- methods of `db.Transaction` (with the embedded interfaces) -/\ndef crashTxMethods : List String := %s\n\n", leanStrList(tx))
-	b.WriteString("/-- storage calls of the anchored functions in source order: `store.<M>` (receiver mentions a store),\n    `tx.<M>` / `rd.<M>` (a db.Transaction / db.ReadOnly method on a receiver of that name), `call.<f>` (another anchored function), `db.Write` / `db.Read` (a transaction / read section on the user's db.Client) -/\n")
+	b.WriteString("/-- storage calls of the anchored functions in source order: `store.<M>` (receiver mentions a store),\n    `tx.<M>` / `rd.<M>` (a db.Transaction / db.ReadOnly method on a receiver of that name), `call.<f>` (another anchored function), `db.Write` / `db.Read` (a transaction / read section on the user's db.Client), `check.recovered` (ids.IsRecoveredRemoteMessageID) -/\n")
 	b.WriteString("def crashCallOrder : List (String × List String) := [\n")
 	for ti, t := range crashTargets {
 		var calls []string
@@ -132,6 +132,8 @@ func factsCrash(c *factsCtx, outdir string) error {
 							calls = append(calls, "tx."+m)
 						case roSet[m] && (recv == "client" || recv == "rd" || recv == "read"):
 							calls = append(calls, "rd."+m)
+						case m == "IsRecoveredRemoteMessageID":
+							calls = append(calls, "check.recovered")
 						case anchored[m]:
 							calls = append(calls, "call."+m)
 						case (m == "Write" || m == "Read") && strings.Contains(recv, "db"):
